@@ -5,11 +5,11 @@ package main
 // truncated and overlong UTF-8:
 //   runecount   utf8.RuneCountInString                       Syn.RuneCountInString
 //   sw          fmt.Sprintf("%Ns" / "%-Ns", s)                 Syn.Fmt.sW
-//   sstar       fmt.Sprintf("%*s" / "%-*s", w, s)              Syn.Fmt.sStar (negative widths, widths around ±10^6: %!(BADWIDTH))
+//   repeat      strings.Repeat (negative counts panic)         Syn.Strings.Repeat
 //   join        strings.Join                                  Syn.Strings.Join
 //   write       (*bytes.Buffer).Write through io.Writer       Syn.Writer.Write (content afterwards, n, err)
 //   wstring     io.WriteString to a bytes.Buffer behind a writer WITHOUT WriteString (= Write([]byte(s)))
-//   posting     fmt.Fprintf(w, "%-*s %-*s %10s %s", …) into a bytes.Buffer: the composition the translator builds for printPosting
+//   posting     fmt.Fprintf(w, "%s %s %10s %s", …) into a bytes.Buffer: the composition the translator builds for printPosting
 
 import (
 	"bytes"
@@ -66,19 +66,19 @@ func runGoSemSynStream(c *Ctx, n int) {
 		minus := r.Bool()
 		f := "%" + map[bool]string{true: "-", false: ""}[minus] + itoa(w) + "s"
 		cmp(i, "sw", map[string]any{"s": Hex(s), "format": f}, Hex(fmt.Sprintf(f, s)), "sw", itoa(gosemB2i(minus)), itoa(w), Hex(s))
-		// widths as operands
-		var ws int
+		// strings.Repeat: negative counts panic; long outputs are compared by length, head and tail
+		var cnt int
 		switch r.Intn(20) {
 		case 0:
-			ws = Pick(r, []int{999999, 1000000, 1000001, -999999, -1000000, -1000001, 1 << 40, -(1 << 40)})
+			cnt = Pick(r, []int{1000000, 1000001, 70000})
 		case 1, 2, 3:
-			ws = r.Range(-40, 0)
+			cnt = r.Range(-5, 0)
 		default:
-			ws = r.Range(0, 40)
+			cnt = r.Range(0, 40)
 		}
-		fs := "%" + map[bool]string{true: "-", false: ""}[minus] + "*s"
-		cmp(i, "sstar", map[string]any{"s": Hex(s), "format": fs, "w": ws}, gosemSynSummary(fmt.Sprintf(fs, ws, s)), "sstar", itoa(gosemB2i(minus)), itoa(ws), Hex(s))
-		c.Class(fmt.Sprintf("gosemsyn/sstar/minus%v/w%s/big%v/valid%v", minus, sign(ws), ws > 1000000 || ws < -1000000, utf8.ValidString(s)))
+		rs := Pick(r, []string{" ", " ", " ", "", "ab", "é", "\xff"})
+		cmp(i, "repeat", map[string]any{"s": Hex(rs), "n": cnt}, gosemTry(func() string { return gosemSynSummary(strings.Repeat(rs, cnt)) }), "repeat", itoa(cnt), Hex(rs))
+		c.Class(fmt.Sprintf("gosemsyn/repeat/n%s/big%v/empty%v", sign(cnt), cnt > 4096, rs == ""))
 		// strings.Join
 		parts := make([]string, r.Intn(5))
 		enc := make([]string, len(parts))
@@ -109,7 +109,7 @@ func runGoSemSynStream(c *Ctx, n int) {
 		pad := r.Range(0, 30)
 		var buf3 bytes.Buffer
 		g3 := &gosemSynWriter{w: &buf3}
-		nw, err = fmt.Fprintf(g3, "%-*s %-*s %10s %s", pad, a, pad, b, q, cm)
+		nw, err = fmt.Fprintf(g3, "%s %s %10s %s", a, b, q, cm)
 		cmp(i, "posting", map[string]any{"pad": pad, "credit": Hex(a), "debit": Hex(b), "quantity": Hex(q), "commodity": Hex(cm)},
 			fmt.Sprintf("%s %d %v calls=%d", Hex(buf3.String()), nw, err, g3.calls), "posting", itoa(pad), Hex(a), Hex(b), Hex(q), Hex(cm))
 	}
